@@ -54,27 +54,27 @@ func (t *atomTab) atom(kind, raw, rendering string) int {
 func (t *atomTab) val(v pcommon.Value) string {
 	switch v.Type() {
 	case pcommon.ValueTypeStr:
-		return fmt.Sprintf("VStr [%d]", t.atom("s", v.Str(), strconv.Quote(v.Str())))
+		return fmt.Sprintf("IStr [%d]", t.atom("s", v.Str(), strconv.Quote(v.Str())))
 	case pcommon.ValueTypeInt:
-		return fmt.Sprintf("VInt %d%%Z", t.atom("i", strconv.FormatInt(v.Int(), 10), strconv.FormatInt(v.Int(), 10)))
+		return fmt.Sprintf("IInt %d%%Z", t.atom("i", strconv.FormatInt(v.Int(), 10), strconv.FormatInt(v.Int(), 10)))
 	case pcommon.ValueTypeDouble:
 		r := strconv.FormatFloat(v.Double(), 'E', -1, 64)
-		return fmt.Sprintf("VDouble %d", t.atom("d", r, r))
+		return fmt.Sprintf("IDouble %d", t.atom("d", r, r))
 	case pcommon.ValueTypeBool:
-		return fmt.Sprintf("VBool %v", v.Bool())
+		return fmt.Sprintf("IBool %v", v.Bool())
 	case pcommon.ValueTypeBytes:
 		r := hex.EncodeToString(v.Bytes().AsRaw())
-		return fmt.Sprintf("VBytes [%d]", t.atom("x", r, r))
+		return fmt.Sprintf("IBytes [%d]", t.atom("x", r, r))
 	case pcommon.ValueTypeSlice:
 		var parts []string
 		for i := 0; i < v.Slice().Len(); i++ {
 			parts = append(parts, t.val(v.Slice().At(i)))
 		}
-		return "VSlice [" + strings.Join(parts, "; ") + "]"
+		return "ISlice [" + strings.Join(parts, "; ") + "]"
 	case pcommon.ValueTypeMap:
-		return "VMap " + t.entries(v.Map())
+		return "IMap " + t.entries(v.Map())
 	}
-	return "VEmpty"
+	return "IEmpty"
 }
 
 func (t *atomTab) entries(m pcommon.Map) string {
